@@ -81,7 +81,7 @@ def generate(seed, index, tier):
             mut['initial'] = False
         cur['fields'].append(copy.deepcopy(f))
         evo_fields.append(f)
-        steps.append({'evos': [{'label': 'e%d' % (i + 1),
+        steps.append({'evos': [{'label': spec.evo_label(i),
                                 'mutations': [mut]}],
                       'target': copy.deepcopy([cur])})
     move_version = k + 1
